@@ -281,7 +281,7 @@ def table_in_claim(key, mod):
     if mod == 'optimizers':
         return False
     if p == 'half_window':
-        return mod in O.HW_MODULES
+        return mod in O.HW_MODULES or m == 'pspline_mpls'
     return True
 
 
@@ -292,7 +292,8 @@ def finding_key(t, outcome):
 
 def describe(t, outcome):
     val = t.get('value', t.get('vclass'))
-    return (f"{'Baseline2D' if t['dim'] == '2d' else 'Baseline'}.{t['method']} with exactly one invalid argument "
+    comp = f" together with the valid optional argument [{t['comp']}]" if t.get('comp') else ''
+    return (f"{'Baseline2D' if t['dim'] == '2d' else 'Baseline'}.{t['method']} with exactly one invalid argument{comp} "
             f"{t['param']}={val!r} ({t['vclass']}) "
             + ('returned a baseline silently' if outcome == 'returned' else f'raised {outcome}')
             + (' instead of ValueError/TypeError' if t['kind'] != 'unknown_method' else ' instead of AttributeError'))
@@ -300,7 +301,9 @@ def describe(t, outcome):
 
 def oracle(ctx, tasks=None):
     seed = ctx.rng.randint(0, 10 ** 6)
-    tasks = tasks or O.build_tasks(seed, ctx.tier)
+    valid_comps, n_probes = O.valid_companions(seed)
+    ctx.extra['companion_probes'] = {'probed': n_probes, 'valid': len(valid_comps)}
+    tasks = tasks or O.build_tasks(seed, ctx.tier, valid_comps)
     res = O.run_all(tasks)
     table = routing_entries()
     n_fail = 0
